@@ -1,11 +1,202 @@
-"""C04 tie + search: see ties/_mux.py (shared muxer harness and extracted model)."""
+"""C04 tie + search.
+
+Two parts, merged into one Tie:
+  * the sequential part shared with the other muxer properties (ties/_mux.py: harness/cmd/mux drives
+    the real Muxer, the extracted Coq model runs on the same histories, observations BETWEEN writes);
+  * the last sentence of C04 ("all streams expose the same media sequence numbers and durations at
+    the same time"), which is about what a concurrent request can see DURING a write:
+      translate  tools/critsec regenerates coq/Generated/MuxCritSec.v (lock skeletons of the rotation
+                 code and of the playlist handlers) from the repository being checked;
+      P leg      Props/C04.v: atomic_rotation generated = true by computation + the soundness theorem
+                 of Proofs/MuxAtomic.v instantiated at it (breaks when the rotation stops being one
+                 critical section);
+      T leg      the translator's own checks (AST recount of the mutex operations per function, mutex
+                 aliasing, generators read the observed fields) and a mutation self-test: skeletons of
+                 in-memory mutants of THIS source must all be rejected by the Coq check;
+      S leg      harness/cmd/muxatomic: a real Muxer under a writer that rotates as fast as it can and
+                 readers that fetch playlists through Muxer.Handle only; sandwich / order oracles."""
+import json
 import os
+import re
 import sys
 sys.path.insert(0, os.path.dirname(os.path.abspath(__file__)))
 import _mux  # noqa: E402
+import vlib  # noqa: E402
 
 META = dict(_mux.META_COMMON)
+META["coq_targets"] = list(_mux.META_COMMON["coq_targets"]) + ["Proofs/MuxAtomicGen.vo"]
+META["trusted_base"] = list(_mux.META_COMMON["trusted_base"]) + [
+    "tools/critsec (Go AST translator, go/parser + go/types, ~1100 lines): which statements become which skeleton events "
+    "(operations on Muxer.mutex and on its alias muxerStream.mutex, cond.Wait, calls of the per-stream rotation methods = the "
+    "muxerStream methods that assign segments / segmentDeleteCount / targetDuration / partTargetDuration / a segment's parts, "
+    "copies and reads of those fields, error-returning calls, if err != nil, if !stream.isLeading, range m.streams, for, switch, "
+    "defer, return, immediately invoked func literals); functions without any operation on the mutex are reduced to the flat list "
+    "of their events; func literals that are registered as handlers are not followed; it exits non-zero on syntax it does not "
+    "understand and when its AST recount of mutex operations disagrees with the skeleton",
+    "Model/MuxAtomic.v: the semantics given to a skeleton (sequentially consistent interleaving of flat events, sync.Mutex as "
+    "free/held, cond.Wait = Unlock then Lock, a per-stream rotation method is one event when its body does not touch the mutex "
+    "(checked: lock_free), a stream abstracted to its history of (kind, nextDTS) rotations; that MEDIA-SEQUENCE and the listed "
+    "durations are functions of that history is C04's sequential part)",
+    "Go harness harness/cmd/muxatomic (stress schedule, sandwich and order oracles over Muxer.Handle responses only)",
+]
+META["assumptions"] = [a for a in _mux.META_COMMON["assumptions"] if not a.startswith("observations are taken between")] + [
+    "sequential part: observations are taken between Write calls; concurrent part: one goroutine calls Write*, any number call Handle",
+    "concurrent part: no rotation has returned an error before (after a failed rendition rotation the leading stream is one segment "
+    "ahead for good; the theorem's g_failed flag)",
+    "the Go scheduler / sync.Mutex are modelled, not verified; handlers of segments, parts and init files do not read the observed fields",
+]
+
+GEN = os.path.join(vlib.COQ, "Generated", "MuxCritSec.v")
+TOOL = os.path.join(vlib.VERIF, "tools", "critsec")
+OUR_SIG = "streams-disagree-at-the-same-time"
+
+
+def _wdir():
+    d = os.path.join(vlib.WORK, "C04", "critsec")
+    os.makedirs(d, exist_ok=True)
+    return d
+
+
+def _translate_repo(repo, install=True):
+    """run tools/critsec on repo; returns an error string or None. Writes report.json and Mut.v into the work dir and
+    (install) coq/Generated/MuxCritSec.v when it changed."""
+    os.makedirs(os.path.join(vlib.WORK, "bin"), exist_ok=True)
+    binp = os.path.join(vlib.WORK, "bin", "critsec")
+    d = _wdir()
+    tmp = os.path.join(d, "MuxCritSec.v.new")
+    for f in ("report.json", "Mut.v"):
+        try:
+            os.remove(os.path.join(d, f))
+        except OSError:
+            pass
+    with vlib.Lock("go"):
+        rc, out = vlib.run(["go", "build", "-o", binp, "."], cwd=TOOL, env=vlib.go_env(), timeout=600)
+    if rc != 0:
+        return "go build of tools/critsec failed: " + out[-1500:]
+    rc, out = vlib.run([binp, "-repo", ".", "-coq", tmp, "-report", os.path.join(d, "report.json"),
+                        "-mutants", os.path.join(d, "Mut.v")], cwd=repo, env=vlib.go_env(), timeout=600)
+    if rc != 0:
+        return "tools/critsec failed on %s: %s" % (repo, out[-1500:])
+    if install:
+        new = open(tmp).read()
+        old = open(GEN).read() if os.path.exists(GEN) else ""
+        if new != old:
+            with vlib.Lock("coq"):
+                open(GEN, "w").write(new)
+    return None
+
+
+def translate():
+    """regenerate coq/Generated/MuxCritSec.v from the repository being checked; returns an error string or None"""
+    return _translate_repo(vlib.REPO)
+
+
+def _restore_shared():
+    """a run against a scratch copy (VERIF_REPO) leaves the shared generated file describing that copy: put /repo's back"""
+    if vlib._ALT:
+        binp = os.path.join(vlib.WORK, "bin", "critsec")
+        tmp = os.path.join(_wdir(), "MuxCritSec.v.repo")
+        rc, out = vlib.run([binp, "-repo", ".", "-coq", tmp], cwd="/repo", env=vlib.go_env(), timeout=600)
+        if rc == 0:
+            new = open(tmp).read()
+            if new != (open(GEN).read() if os.path.exists(GEN) else ""):
+                with vlib.Lock("coq"):
+                    open(GEN, "w").write(new)
+
+
+def _is_ours(replay):
+    try:
+        return OUR_SIG in json.load(open(replay)).get("signature", "")
+    except Exception:
+        return False
+
+
+def _t_leg(t, info, model_available):
+    d = _wdir()
+    rp = os.path.join(d, "report.json")
+    if not os.path.exists(rp):
+        err = translate()
+        if err or not os.path.exists(rp):
+            t.mismatches.append({"observable": "critsec-translator", "input": {"repo": vlib.REPO},
+                                 "detail": err or "no report written"})
+            return
+    r = json.load(open(rp))
+    info["writer_entries"] = r["writer_entries"]
+    info["reader_entries"] = r["reader_entries"]
+    info["rotation_methods"] = r["rotation_methods"]
+    info["observed_fields"] = r["observed_fields"]
+    info["functions"] = ["%s (%s): lock=%d unlock=%d defer_unlock=%d wait=%d rotations=%d ast_recount=%d" % (
+        f["name"], f["class"], f["lock"], f["unlock"], f["defer_unlock"], f["wait"], f["mut"], f["ast_recount_mutex_ops"])
+        for f in r["functions"] if f["class"] == "structural" or f["ast_recount_mutex_ops"]]
+    info["untranslated_functions_with_mutex_ops"] = r["untranslated_functions_with_mutex_ops"]
+    info["translator_notes"] = r["notes"]
+    for s in r.get("self_check_failures") or []:
+        t.mismatches.append({"observable": "critsec-self-check", "input": {"repo": vlib.REPO}, "detail": s})
+    # mutation self-test: every in-memory mutant of this source must be rejected by the Coq check
+    mut = os.path.join(d, "Mut.v")
+    if model_available and os.path.exists(mut) and r.get("mutants"):
+        rc, out = vlib.run(["coqc", "-Q", vlib.COQ, "GoHls", "-w", "-all", "Mut.v"], cwd=d, timeout=600)
+        for ext in (".vo", ".vok", ".vos", ".glob"):
+            try:
+                os.remove(mut[:-2] + ext)
+            except OSError:
+                pass
+        verdicts = re.findall(r'\("([^"]*)",\s*(true|false)\)', " ".join(out.split()))
+        info["mutants"] = {n: ("rejected" if v == "false" else "ACCEPTED") for n, v in verdicts}
+        if rc != 0 or len(verdicts) != len(r["mutants"]):
+            t.errors.append("mutation self-test of tools/critsec could not be evaluated: " + out[-1500:])
+        for n, v in verdicts:
+            if v == "true":
+                t.mismatches.append({"observable": "critsec-mutant-accepted", "input": {"mutant": n},
+                                     "detail": "the skeleton of this in-memory mutant of the source passes atomic_rotation"})
+        t.evaluations += len(verdicts)
+    else:
+        info["mutants"] = "not evaluated (%s)" % ("no applicable mutant: the source does not have the expected shape"
+                                                  if model_available else "Coq build failed")
+
+
+def _s_leg(t, ctx, info):
+    ok, log, binp = vlib.build_harness("muxatomic")
+    if not ok:
+        t.errors.append("go build of harness/cmd/muxatomic failed: " + log[-2000:])
+        return
+    out = os.path.join(ctx["work"], "atomic_w" if ctx["widen"] else "atomic")
+    vlib.run(["rm", "-rf", out])
+    cmd = [binp, "-seed", str(ctx["seed"]), "-tier", ctx["tier"], "-out", out]
+    if ctx["widen"]:
+        cmd.append("-widen")
+    if ctx["replay"]:
+        cmd += ["-replay", ctx["replay"]]
+    rc, o = vlib.run(cmd, timeout=3000)
+    if rc != 0:
+        t.errors.append("muxatomic harness failed: " + o[-2000:])
+        return
+    r = json.load(open(os.path.join(out, "result.json")))
+    t.evaluations += r["evaluations"]
+    t.distinct_nontrivial += r["distinct_nontrivial"]
+    t.rule = (t.rule + "; " if t.rule else "") + r["rule"]
+    t.samples = (t.samples or []) + (r["samples"] or [])[:1]
+    for k, v in (r["distribution"] or {}).items():
+        t.distribution["atomic:" + k] = v
+    t.oracle_failures += r["oracle_failures"] or []
+    t.errors += r.get("infra_errors") or []
+    info["search"] = {k: r[k] for k in ("scenarios", "segment_rotations", "requests", "conclusive_sandwiches", "seconds")}
+    if not ctx["replay"] and r["distinct_nontrivial"] < 2:
+        t.errors.append("muxatomic: only %d scenarios produced rotations and conclusive sandwiches" % r["distinct_nontrivial"])
 
 
 def run(ctx):
-    return _mux.run_mux(ctx, "C04")
+    ours = bool(ctx["replay"]) and _is_ours(ctx["replay"])
+    if ours:
+        t = vlib.Tie()
+        t.min_nontrivial = 0
+    else:
+        t = _mux.run_mux(ctx, "C04")
+    info = {}
+    if not ctx["widen"] and not ctx["replay"]:
+        _t_leg(t, info, ctx["model_available"])
+    if ours or not ctx["replay"]:
+        _s_leg(t, ctx, info)
+    t.extra["atomic_rotation"] = info
+    _restore_shared()
+    return t
